@@ -16,7 +16,7 @@ package dig
 //@ ghost field Scope.anc mmap[int]*Scope
 //@ ghost field Scope.nanc int
 //@ typeinv[scope-ancestors] (s *Scope) s.nanc >= 1 && s.anc[0] == s
-//@   && (forall i int :: 0 <= i && i < s.nanc ==> s.anc[i] != nil && allocated(s.anc[i]))
+//@   && (forall i int :: 0 <= i && i < s.nanc ==> s.anc[i] != nil && allocated(s.anc[i]) && s.anc[i].nanc == s.nanc - i)
 //@   && (forall i int :: 0 <= i && i + 1 < s.nanc ==> s.anc[i+1] == s.anc[i].parentScope)
 //@   && s.anc[s.nanc-1].parentScope == nil
 
@@ -86,7 +86,7 @@ package dig
 // mention are written.
 
 //@ typeinv[scope-wf] (s *Scope) s.providers != nil && s.decorators != nil && s.values != nil && s.decoratedValues != nil
-//@   && s.groups != nil && s.decoratedGroups != nil && s.gh != nil && s.rand != nil
+//@   && s.groups != nil && s.decoratedGroups != nil && s.gh != nil && s.gh.s == s && s.rand != nil
 //@   && isInvoker(s.invokerFn) && s.clockSrc != nil
 //@   && s.values != s.decoratedValues && s.values != s.decoratedGroups && s.decoratedValues != s.decoratedGroups
 
@@ -809,7 +809,9 @@ package dig
 //@     && (is(s.gh.nodes[j].Wrapped, ptr(paramGroupedSlice)) ==> as(s.gh.nodes[j].Wrapped, ptr(paramGroupedSlice)) != nil && as(s.gh.nodes[j].Wrapped, ptr(paramGroupedSlice)).orders != nil)
 
 //@ func (s *Scope) Scope(name, opts) (child)
-//@   requires s != nil && graphNodesOK(s)
+//@   requires s != nil && graphNodesOK(s) && childrenLinked() && childListsSeparate() && graphsSeparate()
+//@   ensures[C08:tree-links-kept,C16:tree-links-kept] childrenLinked() && childListsSeparate()
+//@   ensures[C16:graph-stores-kept-separate,C05:graph-stores-kept-separate] graphsSeparate()
 //@   requires forall i int :: 0 <= i && i < len(opts) ==> opts[i] != nil
 //@   modifies Scope.childScopes, elems(*Scope), map(constructorNode.orders)
 //@   allocates
@@ -835,6 +837,9 @@ package dig
 //@        && (forall j int :: 0 <= j && j < $i ==> child.gh.nodes[j] == s.gh.nodes[j])
 //@   loop range s.gh.nodes #1: invariant[C16:orders-copied-so-far] forall j int :: 0 <= j && j < $i ==> orderOf(s.gh.nodes[j].Wrapped, child) == orderOf(s.gh.nodes[j].Wrapped, s)
 //@   loop range s.gh.nodes #1: invariant[C16:parents-orders-kept] forall j int :: 0 <= j && j < len(s.gh.nodes) ==> orderOf(s.gh.nodes[j].Wrapped, s) == old(orderOf(s.gh.nodes[j].Wrapped, s))
+//@   loop range s.gh.nodes #1: invariant[C16:stores-separate-while-copying] graphsSeparate()
+//@   loop range s.gh.nodes #1: invariant[C16:links-kept-while-copying] childrenLinked() && childListsSeparate()
+//@   loop range s.gh.nodes #1: invariant[C16:child-not-yet-listed] child.parentScope == s && len(child.childScopes) == 0 && cap(child.childScopes) == 0 && s.childScopes == old(s.childScopes)
 //@   loop range s.gh.nodes #1: invariant fresh(child) && child != s && s.gh == old(s.gh) && s.gh.nodes == old(s.gh.nodes) && graphNodesOK(s)
 //@        && (forall j int :: 0 <= j && j < len(s.gh.nodes) ==> s.gh.nodes[j] == old(s.gh.nodes[j]))
 
@@ -873,3 +878,46 @@ package dig
 //@   modifies Scope.invokerFn
 //@   ensures[C17:dry-run-option-selects-the-dry-invoker] c.scope.invokerFn == (o ? dryInvoker : defaultInvoker)
 //@   ensures[C17:dry-run-option-touches-one-scope] forall x *Scope :: x != c.scope ==> x.invokerFn == old(x.invokerFn)
+
+// ---------------------------------------------------------------------------
+// the scope tree and the per-scope graph copies (C05, C16, C08)
+
+// The recursion of newGraphNode visits the scope itself and then every child
+// with the same arguments (site assertion), so by induction over the height of
+// the tree every scope of the subtree receives the node; that induction is not
+// sent to a solver. What is proved per activation: the node lands at the end
+// of this scope's graph and its order is recorded; nothing at the same or a
+// smaller depth is touched (so the activations of siblings and ancestors do
+// not disturb each other); no graph ever loses or reorders a node.
+
+// children are linked to their parent
+//@ pure func childrenLinked() Bool = forall y *Scope, j int :: { y.childScopes[j] } allocated(y) && 0 <= j && j < len(y.childScopes)
+//@     ==> y.childScopes[j] != nil && allocated(y.childScopes[j]) && y.childScopes[j].parentScope == y
+//@ pure func childListsSeparate() Bool = (forall a *Scope, b *Scope :: { a.childScopes, b.childScopes } allocated(a) && allocated(b) && a != b && cap(a.childScopes) > 0 ==> a.childScopes.arr != b.childScopes.arr)
+//@     && (forall a *Scope :: { a.childScopes } allocated(a) ==> a.childScopes.arr <= $alloc && (cap(a.childScopes) > 0 ==> a.childScopes.arr > 0))
+
+// different graph holders never share the backing store of their node lists, and every scope owns its holder
+//@ pure func graphsSeparate() Bool = (forall a *graphHolder, b *graphHolder :: { a.nodes, b.nodes } allocated(a) && allocated(b) && a != b && cap(a.nodes) > 0 ==> a.nodes.arr != b.nodes.arr)
+//@     && (forall x *Scope :: { x.gh } allocated(x) ==> x.gh != nil && x.gh.s == x && allocated(x.gh))
+//@     && (forall a *graphHolder :: { a.nodes } allocated(a) ==> a.nodes.arr <= $alloc && (cap(a.nodes) > 0 ==> a.nodes.arr > 0))
+
+//@ func (s *Scope) newGraphNode(wrapped, orders) ()
+//@   requires s != nil && orders != nil && childrenLinked() && graphsSeparate()
+//@   modifies graphHolder.nodes, elems(*graphNode), map(constructorNode.orders)
+//@   allocates
+//@   ensures[C16:node-appended-to-this-scopes-graph,C05:node-appended-to-this-scopes-graph,C08:node-appended-to-this-scopes-graph]
+//@        len(s.gh.nodes) == old(len(s.gh.nodes)) + 1 && s.gh.nodes[old(len(s.gh.nodes))] != nil && s.gh.nodes[old(len(s.gh.nodes))].Wrapped == wrapped
+//@        && orders[s] == old(len(s.gh.nodes))
+//@   ensures[C16:no-graph-loses-or-reorders-a-node] forall g *graphHolder, j int :: existed(g) && 0 <= j && j < old(len(g.nodes)) ==> len(g.nodes) >= old(len(g.nodes)) && g.nodes[j] == old(g.nodes[j])
+//@   ensures[C16:shallower-scopes-untouched] forall y *Scope :: existed(y) && y != s && y.nanc <= s.nanc ==> y.gh.nodes == old(y.gh.nodes) && orders[y] == old(orders[y])
+//@   ensures[C16:graph-stores-stay-separate] graphsSeparate() && childrenLinked()
+//@   ensures[C16:only-this-nodes-order-map-written] forall m map[*Scope]int :: existed(m) && m != orders ==> mapeq(m)
+//@   ensures[C03:adding-a-graph-node-runs-nothing] $nrun == old($nrun) && $ncb == old($ncb)
+//@   loop range s.childScopes #1: invariant[C16:own-node-stays-in-place] len(s.gh.nodes) == old(len(s.gh.nodes)) + 1 && s.gh.nodes[old(len(s.gh.nodes))] != nil
+//@        && s.gh.nodes[old(len(s.gh.nodes))].Wrapped == wrapped && orders[s] == old(len(s.gh.nodes))
+//@   loop range s.childScopes #1: invariant[C16:graphs-only-grow-so-far] forall g *graphHolder, j int :: existed(g) && 0 <= j && j < old(len(g.nodes)) ==> len(g.nodes) >= old(len(g.nodes)) && g.nodes[j] == old(g.nodes[j])
+//@   loop range s.childScopes #1: invariant[C16:shallower-scopes-untouched-so-far] forall y *Scope :: existed(y) && y != s && y.nanc <= s.nanc ==> y.gh.nodes == old(y.gh.nodes) && orders[y] == old(orders[y])
+//@   loop range s.childScopes #1: invariant[C16:stores-separate-so-far] graphsSeparate()
+//@   loop range s.childScopes #1: invariant[C16:children-linked-so-far] childrenLinked() && s.childScopes == old(s.childScopes)
+//@   loop range s.childScopes #1: invariant[C16:other-order-maps-kept-so-far] forall m map[*Scope]int :: existed(m) && m != orders ==> mapeq(m)
+//@   site call (*dig.Scope).newGraphNode #1: assert[C16:node-passed-on-to-every-child,C05:node-passed-on-to-every-child,C08:node-passed-on-to-every-child] $recv == s.childScopes[$i] && $arg0 == wrapped && $arg1 == orders
